@@ -17,6 +17,7 @@ ap.add_argument('--out', default=C.V + '/domains.json')
 ap.add_argument('--witness', action='store_true')
 ap.add_argument('--merge', action='store_true')
 ap.add_argument('--variants', default=','.join(S.VARIANTS))
+ap.add_argument('--skip-dirty', action='store_true', help='with --merge: do not re-run cells that already have a failure')
 a = ap.parse_args()
 VARS = a.variants.split(',')
 ctx = C.Ctx('C99', 'quick', a.seed)
@@ -37,13 +38,18 @@ for prof in a.profiles.split(','):
     for p, s in keep:
         for v in VARS:
             for par in S.pars_of(v):
+                if a.skip_dirty and res.get('%s|%s|%d' % (prof, v, par), {}).get('fail', 0) > 0:
+                    continue
                 jobs.append((p, v, par, S.budget_for(s[1])))
     impl, il, raw = S.run_impl(ctx, jobs, 'cal-i')
     k = 0
+    dirty0 = {key for key, c in res.items() if c.get('fail', 0) > 0} if a.skip_dirty else set()
     for p, s in keep:
         for v in VARS:
             for par in S.pars_of(v):
                 key = '%s|%s|%d' % (prof, v, par)
+                if a.skip_dirty and key in dirty0:
+                    continue
                 cell = res.setdefault(key, {'n': 0, 'fail': 0, 'kinds': {}, 'n_without': {}, 'fail_without': {}})
                 r = S.verdict(s, impl[k])
                 cell['n'] += 1
